@@ -17,6 +17,9 @@
 //     (allocated in this function and not yet published), which channels have
 //     been received from on every path to the statement and which channels are
 //     closed / sent to unconditionally after it;
+//   - the reads and writes of PACKAGE-LEVEL variables of those packages (owner = the
+//     package, global = true): the declaration and func init are writes by <pkg>.init,
+//     every other write / read is recorded with the package-level mutexes held;
 //   - the call sites of "caller must hold" methods with the locks held there;
 //   - the list of all methods of tracked types and of all functions that have
 //     at least one access (every one of them needs a role in Model/Locks.v).
@@ -43,7 +46,13 @@ import (
 const modPath = "github.com/facebookincubator/dns/dnsrocks"
 
 // package directories (relative to <repo>/dnsrocks) and the short names used in the table
-var pkgDirs = []string{"dnsserver", "db", "dnsdata/rdb", "metrics"}
+// (the tracked struct types live in the first four; the others are scanned for accesses to
+// package-level variables: they are reachable from request handling or from the server's
+// own goroutines)
+var pkgDirs = []string{"dnsserver", "db", "dnsdata/rdb", "metrics", "logger", "fbserver", "whoami",
+	"dnsdata", "dnsdata/svcb", "dnsserver/stats"}
+
+var corePkgs = map[string]bool{"dnsserver": true, "db": true, "dnsdata/rdb": true, "metrics": true}
 
 // tracked receiver types, by short package name
 var trackedTypes = map[string]bool{
@@ -85,6 +94,15 @@ type pkgInfo struct {
 	funcs   map[string]*ast.FuncDecl
 	methods map[string]map[string]*ast.FuncDecl
 	fileOf  map[*ast.FuncDecl]*ast.File
+	vars    map[string]*varInfo // package-level variables
+}
+
+// varInfo is a package-level variable
+type varInfo struct {
+	name string
+	spec *ast.ValueSpec
+	file *ast.File
+	t    *typ
 }
 
 // typ is a syntactic type with the file (imports) and package it is written in
@@ -133,7 +151,7 @@ func load(root string) error {
 			return err
 		}
 		p := &pkgInfo{dir: d, fnames: map[*ast.File]string{}, structs: map[string]*structInfo{},
-			funcs: map[string]*ast.FuncDecl{}, methods: map[string]map[string]*ast.FuncDecl{}, fileOf: map[*ast.FuncDecl]*ast.File{}}
+			funcs: map[string]*ast.FuncDecl{}, methods: map[string]map[string]*ast.FuncDecl{}, fileOf: map[*ast.FuncDecl]*ast.File{}, vars: map[string]*varInfo{}}
 		var names []string
 		for _, e := range ents {
 			n := e.Name()
@@ -167,6 +185,21 @@ func load(root string) error {
 				switch x := decl.(type) {
 				case *ast.GenDecl:
 					for _, sp := range x.Specs {
+						if vs, ok := sp.(*ast.ValueSpec); ok && x.Tok == token.VAR {
+							for i, nm := range vs.Names {
+								if nm.Name == "_" {
+									continue
+								}
+								vi := &varInfo{name: nm.Name, spec: vs, file: f}
+								if vs.Type != nil {
+									vi.t = &typ{vs.Type, p, f}
+								} else if i < len(vs.Values) {
+									vi.t = staticTypeOf(vs.Values[i], p, f)
+								}
+								p.vars[nm.Name] = vi
+							}
+							continue
+						}
 						ts, ok := sp.(*ast.TypeSpec)
 						if !ok {
 							continue
@@ -201,6 +234,28 @@ func load(root string) error {
 			}
 		}
 		pkgs[d] = p
+	}
+	return nil
+}
+
+// staticTypeOf: type of a package-level initialiser, as far as it can be read off the syntax
+func staticTypeOf(e ast.Expr, p *pkgInfo, f *ast.File) *typ {
+	switch x := e.(type) {
+	case *ast.CompositeLit:
+		return &typ{x.Type, p, f}
+	case *ast.UnaryExpr:
+		if x.Op == token.AND {
+			if t := staticTypeOf(x.X, p, f); t != nil {
+				return &typ{&ast.StarExpr{X: t.expr}, p, f}
+			}
+		}
+	case *ast.CallExpr:
+		if id, ok := x.Fun.(*ast.Ident); ok && (id.Name == "make" || id.Name == "new") && len(x.Args) > 0 {
+			if id.Name == "new" {
+				return &typ{&ast.StarExpr{X: x.Args[0]}, p, f}
+			}
+			return &typ{x.Args[0], p, f}
+		}
 	}
 	return nil
 }
@@ -340,6 +395,7 @@ type access struct {
 	topIdx       int      // index of the enclosing top-level statement of the function body
 	bodyID       int
 	local        bool // captured local variable
+	global       bool // package-level variable (owner = package)
 	pos          token.Pos
 }
 
@@ -530,6 +586,9 @@ func (c *funcCtx) typeOfN(e ast.Expr, i int) *typ {
 func (c *funcCtx) typeOf(e ast.Expr) *typ {
 	switch x := e.(type) {
 	case *ast.Ident:
+		if v := c.globalOf(x); v != nil {
+			return v.t
+		}
 		if x.Obj != nil {
 			return c.objTypes[x.Obj]
 		}
@@ -564,6 +623,9 @@ func (c *funcCtx) typeOf(e ast.Expr) *typ {
 	case *ast.CallExpr:
 		return c.typeOfN(e, 0)
 	case *ast.SelectorExpr:
+		if _, v := c.foreignGlobal(x); v != nil {
+			return v.t
+		}
 		si, _, _ := resolveNamed(c.typeOf(x.X))
 		if si != nil {
 			if f, o := lookupField(si, x.Sel.Name); f != nil {
@@ -595,6 +657,42 @@ type loc struct {
 	fresh             bool
 	t                 *typ
 	local             bool
+	global            bool
+}
+
+const globalBase = "<global>"
+
+// globalOf: is this identifier a package-level variable of the current package?
+func (c *funcCtx) globalOf(x *ast.Ident) *varInfo {
+	v := c.pkg.vars[x.Name]
+	if v == nil {
+		return nil
+	}
+	if x.Obj == nil || x.Obj.Decl == v.spec {
+		return v
+	}
+	return nil
+}
+
+// foreignGlobal: alias.Name where alias is an imported package that is loaded and Name one of
+// its package-level variables
+func (c *funcCtx) foreignGlobal(x *ast.SelectorExpr) (*pkgInfo, *varInfo) {
+	id, ok := x.X.(*ast.Ident)
+	if !ok || id.Obj != nil || c.pkg.vars[id.Name] != nil {
+		return nil, nil
+	}
+	ip := importPathOf(c.file, id.Name)
+	if !strings.HasPrefix(ip, modPath+"/") {
+		return nil, nil
+	}
+	p, ok := pkgs[strings.TrimPrefix(ip, modPath+"/")]
+	if !ok {
+		return nil, nil
+	}
+	if v := p.vars[x.Sel.Name]; v != nil {
+		return p, v
+	}
+	return nil, nil
 }
 
 func (c *funcCtx) rootFresh(e ast.Expr) bool {
@@ -632,10 +730,16 @@ func (c *funcCtx) locOf(e ast.Expr) *loc {
 	case *ast.ParenExpr:
 		return c.locOf(x.X)
 	case *ast.Ident:
+		if v := c.globalOf(x); v != nil {
+			return &loc{owner: c.pkg.name, path: x.Name, base: globalBase, t: v.t, global: true}
+		}
 		if x.Obj != nil && c.captured[x.Obj] {
 			return &loc{owner: c.topName, path: x.Name, base: "", t: c.objTypes[x.Obj], local: true}
 		}
 	case *ast.SelectorExpr:
+		if p, v := c.foreignGlobal(x); v != nil {
+			return &loc{owner: p.name, path: x.Sel.Name, base: globalBase, t: v.t, global: true}
+		}
 		tx := c.typeOf(x.X)
 		si, _, _ := resolveNamed(tx)
 		if si == nil {
@@ -652,7 +756,7 @@ func (c *funcCtx) locOf(e ast.Expr) *loc {
 		// a field of a value struct embedded in a tracked location
 		if lx := c.locOf(x.X); lx != nil {
 			if _, ptr, _ := resolveNamed(lx.t); !ptr {
-				return &loc{owner: lx.owner, path: lx.path + "." + x.Sel.Name, base: lx.base, fresh: lx.fresh, t: ft, local: lx.local}
+				return &loc{owner: lx.owner, path: lx.path + "." + x.Sel.Name, base: lx.base, fresh: lx.fresh, t: ft, local: lx.local, global: lx.global}
 			}
 		}
 	}
@@ -699,8 +803,10 @@ func (c *funcCtx) record(l *loc, write bool, pos token.Pos) {
 		}
 		accesses = append(accesses, &access{fn: c.name, file: c.relFile(), line: fset.Position(pos).Line,
 			owner: l.owner, field: p, write: write, locks: held, fresh: l.fresh, recv: rc,
-			topIdx: ti, bodyID: c.bodyID, local: l.local, pos: pos})
-		funcNames[c.name] = true
+			topIdx: ti, bodyID: c.bodyID, local: l.local, global: l.global, pos: pos})
+		if !l.global {
+			funcNames[c.name] = true
+		}
 	}
 }
 
@@ -713,8 +819,14 @@ func (c *funcCtx) lockOf(e ast.Expr) (name, base string, ok bool, ptrLoc *loc) {
 	}
 	switch x := e.(type) {
 	case *ast.Ident:
+		if c.globalOf(x) != nil {
+			return c.pkg.name + "." + x.Name, globalBase, true, nil
+		}
 		return c.topName + "." + x.Name, "", true, nil
 	case *ast.SelectorExpr:
+		if p, v := c.foreignGlobal(x); v != nil {
+			return p.name + "." + v.name, globalBase, true, nil
+		}
 		si, _, _ := resolveNamed(c.typeOf(x.X))
 		if si == nil {
 			return "", "", false, nil
@@ -786,6 +898,11 @@ func (c *funcCtx) visitExpr(e ast.Expr, mode int) {
 				}
 				break
 			}
+			if id, ok := inner.(*ast.Ident); ok {
+				if li := c.locOf(id); li != nil && li.owner == l.owner && li.base == l.base && strings.HasPrefix(l.path, li.path+".") {
+					return // the identifier is the root of this very location
+				}
+			}
 			c.visitExpr(inner, mRead)
 			return
 		}
@@ -808,7 +925,13 @@ func (c *funcCtx) visitExpr(e ast.Expr, mode int) {
 		case token.AND:
 			if _, ok := x.X.(*ast.CompositeLit); ok {
 				c.visitExpr(x.X, mRead)
-			} else if l := c.locOf(x.X); l != nil {
+			} else if l := c.locOf(x.X); l != nil && l.global {
+				// the address of a package-level variable is taken (typically to pass a read-only
+				// argument): counted as a read, writes through the pointer are not followed
+				notes = append(notes, fmt.Sprintf("%s: address of package-level variable %s.%s taken at %s:%d (counted as a read)",
+					c.name, l.owner, l.path, c.relFile(), fset.Position(x.Pos()).Line))
+				c.visitExpr(x.X, mRead)
+			} else if l != nil {
 				// the address of a tracked field escapes: count as a write
 				c.visitExpr(x.X, mWrite)
 			} else {
@@ -1032,7 +1155,9 @@ func (c *funcCtx) visitClosure(fl *ast.FuncLit, isGo bool, isDefer bool) {
 		bodyCounter++
 		sub.bodyID = bodyCounter
 		bodies[sub.bodyID] = &bodyInfo{stmts: fl.Body.List, fn: sub.name}
-		funcNames[sub.name] = true
+		if corePkgs[c.pkg.dir] {
+			funcNames[sub.name] = true
+		}
 		for i, s := range fl.Body.List {
 			sub.topIdx = i
 			sub.visitStmt(s)
@@ -1392,9 +1517,14 @@ func analyseFunc(p *pkgInfo, f *ast.File, fd *ast.FuncDecl) {
 			}
 		}
 	}
-	// locals captured by goroutines started in this function
+	// locals captured by goroutines started in this function (only in the packages of the
+	// tracked types; the other packages are scanned for package-level variables and for
+	// accesses to exported fields of tracked types)
 	goIdx := -1
 	for i, s := range fd.Body.List {
+		if !corePkgs[p.dir] {
+			break
+		}
 		ast.Inspect(s, func(nd ast.Node) bool {
 			gs, ok := nd.(*ast.GoStmt)
 			if !ok {
@@ -1549,6 +1679,20 @@ func main() {
 				}
 			}
 		}
+		// the declaration of a package-level variable (with or without initialiser) is a write by
+		// the package initialisation, which happens before main and every goroutine
+		var vn []string
+		for n := range p.vars {
+			vn = append(vn, n)
+		}
+		sort.Strings(vn)
+		for _, n := range vn {
+			v := p.vars[n]
+			k := 0
+			c := &funcCtx{pkg: p, file: v.file, name: p.name + ".init", topName: p.name + ".init", objTypes: map[*ast.Object]*typ{},
+				freshObj: map[*ast.Object]bool{}, captured: map[*ast.Object]bool{}, flow: &flow{recvd: map[string]bool{}}, litCount: &k}
+			c.record(&loc{owner: p.name, path: n, base: globalBase, t: v.t, global: true}, true, v.spec.Pos())
+		}
 	}
 	var lines []string
 	seen := map[string]bool{}
@@ -1576,8 +1720,8 @@ func main() {
 		if a.write {
 			k = "Write"
 		}
-		s := fmt.Sprintf("  mkA %s %s %d %s %s %s %s %s %s %s %s", q(a.fn), q(a.file), a.line, q(a.owner), q(a.field), k,
-			lockList(a.locks), boolStr(a.fresh), boolStr(a.local), qlist(a.recv), qlist(a.signal))
+		s := fmt.Sprintf("  mkA %s %s %d %s %s %s %s %s %s %s %s %s", q(a.fn), q(a.file), a.line, q(a.owner), q(a.field), k,
+			lockList(a.locks), boolStr(a.fresh), boolStr(a.local), boolStr(a.global), qlist(a.recv), qlist(a.signal))
 		if !seen[s] {
 			seen[s] = true
 			lines = append(lines, s)
@@ -1589,7 +1733,8 @@ func main() {
 	fmt.Fprintf(&hdr, "   One record per read / write of a field of a tracked struct type (or of a local variable captured by a\n")
 	fmt.Fprintf(&hdr, "   goroutine): function, file, line, owner type, field, kind, mutexes of the same object held there,\n")
 	fmt.Fprintf(&hdr, "   fresh (object allocated in this function / before the goroutine starts), local (captured local\n")
-	fmt.Fprintf(&hdr, "   variable: owner is the declaring function), channels received from on\n")
+	fmt.Fprintf(&hdr, "   variable: owner is the declaring function), global (package-level variable: owner is the package;\n")
+	fmt.Fprintf(&hdr, "   its declaration is a write by <pkg>.init), channels received from on\n")
 	fmt.Fprintf(&hdr, "   every path before it, channels closed or sent to unconditionally after it. *)\n")
 	fmt.Fprintf(&hdr, "From Coq Require Import List String NArith.\nFrom DnsV Require Import Model.AccessTypes.\nImport ListNotations.\nOpen Scope string_scope.\nOpen Scope N_scope.\n\n")
 	fmt.Fprintf(&b, "Definition accesses : list access := [\n%s\n].\n\n", strings.Join(lines, ";\n"))
